@@ -146,7 +146,8 @@ def _handshake(ctx, proto, mutual, defect, seed, secrets):
             return [rec.raw[:5] + body[:k]]
         kw["hook"] = hook
     if defect in ("tamper", "apptamper"):
-        target = seed % 7
+        # TLCP / TLS 1.2 have two protected handshake records (the Finished messages) before the application records
+        target = seed % 7 if proto == "tls13" else seed % 4
 
         def hook(rec):
             if defect == "apptamper" and not state["app"]:
@@ -222,6 +223,20 @@ def _handshake(ctx, proto, mutual, defect, seed, secrets):
                         secrets["%s entropy draw #%d (%d bytes)" % (nm, i, len(x))] = x
                         if len(x) == 32:
                             secrets["%s entropy draw #%d as scalar" % (nm, i)] = x[::-1]
+        if proto in ("tls12", "tls13"):
+            # the ECDHE result (the pre-master secret of TLS 1.2, the (EC)DHE input of the TLS 1.3 key schedule) is stored nowhere;
+            # it is recomputed from the ephemeral scalars, which are among the 32-byte entropy draws of the two endpoints
+            scal = {}
+            for nm in ("client", "server"):
+                scal[nm] = [(k, int.from_bytes(v, "big")) for k, v in secrets.items() if k.startswith(nm + " entropy draw") and k.endswith("as scalar")]
+            for kc, dc in scal["client"]:
+                for ks, dsv in scal["server"]:
+                    if 0 < dc < M.N and 0 < dsv < M.N:
+                        pt = M.mul(dc * dsv % M.N, M.G)
+                        if pt is not None:
+                            tag = "ECDHE shared point (%s x %s)" % (kc.split(" as ")[0], ks.split(" as ")[0])
+                            secrets[tag + " x"] = M.i2b(pt[0])
+                            secrets[tag + " y"] = M.i2b(pt[1])
         return ok
     finally:
         s.finish()
